@@ -327,6 +327,12 @@ def expand_locals(fn, expr, module_assigns=None, depth=6, at=None):
       for n in ast.walk(st.target):
         if isinstance(n, ast.Name):
           counts[n.id] = counts.get(n.id, 0) + 2
+    # q, r = divmod(a, b): q is a // b and r is a % b
+    if isinstance(st, ast.Assign) and len(st.targets) == 1 and isinstance(st.targets[0], ast.Tuple) and len(st.targets[0].elts) == 2 and \
+        isinstance(st.value, ast.Call) and dotted(st.value.func) == 'divmod' and len(st.value.args) == 2 and not enclosing_loops(fn, st):
+      for e_, op_ in zip(st.targets[0].elts, (ast.FloorDiv(), ast.Mod())):
+        if isinstance(e_, ast.Name):
+          defs[e_.id] = ast.BinOp(left=copy.deepcopy(st.value.args[0]), op=op_, right=copy.deepcopy(st.value.args[1]))
 
   class Sub(ast.NodeTransformer):
     def __init__(self, d):
